@@ -98,6 +98,8 @@ func primType(k Kind) reflect.Type {
 type TestSpec struct {
 	Code    string
 	Path    string // IssuePath option: the test's issue is filed under this path instead of the node's
+	Double  bool   // a hand-written test function that reports TWO issues (same code) when its predicate fails
+	ViaCopy bool   // declared as a copy of a reusable z.Test value whose code (and path) are edited on the copy, then attached with schema.Test
 	Builtin bool
 	Fails   bool // struct tests: constant verdict
 	Pred    func(v reflect.Value) bool
@@ -201,6 +203,8 @@ func (n *Node) Describe() string {
 			sb.WriteString("." + t.Code + "(IssuePath(" + t.Path + "))")
 		} else if t.Builtin {
 			sb.WriteString("." + t.Code + "()")
+		} else if t.Double {
+			sb.WriteString(".Test(" + t.Code + ", reports two issues)")
 		} else if n.Kind == KStruct {
 			sb.WriteString(fmt.Sprintf(".TestFunc(%s,fails=%v)", t.Code, t.Fails))
 		} else {
@@ -428,6 +432,28 @@ func mutateValue(ptr any) {
 	}
 }
 
+// doubleTest: a test function in the documented free form (it reports through ctx.AddIssue itself), which names
+// two reasons when the value is wrong.
+func doubleTest(fn z.BoolTFunc, t TestSpec) z.Test {
+	return z.Test{IssueCode: t.Code, Func: func(val any, ctx z.Ctx) {
+		if !fn(val, ctx) {
+			ctx.AddIssue(ctx.Issue().SetCode(t.Code).SetMessage("first reason"))
+			ctx.AddIssue(ctx.Issue().SetCode(t.Code).SetMessage("second reason"))
+		}
+	}}
+}
+
+// copiedTest: a reusable test built once under a generic code, copied, the copy specialised for this use.
+func copiedTest(fn z.BoolTFunc, t TestSpec) z.Test {
+	reusable := z.TestFunc("reusable_test_generic_code", fn)
+	q := reusable
+	q.IssueCode = t.Code
+	if t.Path != "" {
+		q.IssuePath = t.Path
+	}
+	return q
+}
+
 func pathOpts(t TestSpec) []z.TestOption {
 	if t.Path == "" {
 		return nil
@@ -501,7 +527,19 @@ func BuildZog(n *Node, r *Recorder) z.ZogSchema {
 				s.Max(5, pathOpts(t)...)
 			} else {
 				fn, opt := mkTest(t, true)
+				if t.Double {
+					s.Test(doubleTest(fn, t))
+				} else if t.ViaCopy {
+					s.Test(copiedTest(fn, t))
+				} else {
+					if t.Double {
+				s.Test(doubleTest(fn, t))
+			} else if t.ViaCopy {
+				s.Test(copiedTest(fn, t))
+			} else {
 				s.TestFunc(fn, append([]z.TestOption{opt}, pathOpts(t)...)...)
+			}
+				}
 			}
 		}
 		for i := 0; i < n.NPosts; i++ {
@@ -524,7 +562,19 @@ func BuildZog(n *Node, r *Recorder) z.ZogSchema {
 				s.LT(100, pathOpts(t)...)
 			} else {
 				fn, opt := mkTest(t, true)
+				if t.Double {
+					s.Test(doubleTest(fn, t))
+				} else if t.ViaCopy {
+					s.Test(copiedTest(fn, t))
+				} else {
+					if t.Double {
+				s.Test(doubleTest(fn, t))
+			} else if t.ViaCopy {
+				s.Test(copiedTest(fn, t))
+			} else {
 				s.TestFunc(fn, append([]z.TestOption{opt}, pathOpts(t)...)...)
+			}
+				}
 			}
 		}
 		for i := 0; i < n.NPosts; i++ {
@@ -547,7 +597,19 @@ func BuildZog(n *Node, r *Recorder) z.ZogSchema {
 				s.LT(100, pathOpts(t)...)
 			} else {
 				fn, opt := mkTest(t, true)
+				if t.Double {
+					s.Test(doubleTest(fn, t))
+				} else if t.ViaCopy {
+					s.Test(copiedTest(fn, t))
+				} else {
+					if t.Double {
+				s.Test(doubleTest(fn, t))
+			} else if t.ViaCopy {
+				s.Test(copiedTest(fn, t))
+			} else {
 				s.TestFunc(fn, append([]z.TestOption{opt}, pathOpts(t)...)...)
+			}
+				}
 			}
 		}
 		for i := 0; i < n.NPosts; i++ {
@@ -570,7 +632,19 @@ func BuildZog(n *Node, r *Recorder) z.ZogSchema {
 				s.True()
 			} else {
 				fn, opt := mkTest(t, true)
+				if t.Double {
+					s.Test(doubleTest(fn, t))
+				} else if t.ViaCopy {
+					s.Test(copiedTest(fn, t))
+				} else {
+					if t.Double {
+				s.Test(doubleTest(fn, t))
+			} else if t.ViaCopy {
+				s.Test(copiedTest(fn, t))
+			} else {
 				s.TestFunc(fn, append([]z.TestOption{opt}, pathOpts(t)...)...)
+			}
+				}
 			}
 		}
 		for i := 0; i < n.NPosts; i++ {
@@ -593,7 +667,19 @@ func BuildZog(n *Node, r *Recorder) z.ZogSchema {
 				s.After(tAfter, pathOpts(t)...)
 			} else {
 				fn, opt := mkTest(t, true)
+				if t.Double {
+					s.Test(doubleTest(fn, t))
+				} else if t.ViaCopy {
+					s.Test(copiedTest(fn, t))
+				} else {
+					if t.Double {
+				s.Test(doubleTest(fn, t))
+			} else if t.ViaCopy {
+				s.Test(copiedTest(fn, t))
+			} else {
 				s.TestFunc(fn, append([]z.TestOption{opt}, pathOpts(t)...)...)
+			}
+				}
 			}
 		}
 		for i := 0; i < n.NPosts; i++ {
@@ -613,7 +699,19 @@ func BuildZog(n *Node, r *Recorder) z.ZogSchema {
 				s.Min(2, pathOpts(t)...)
 			} else {
 				fn, opt := mkTest(t, false)
+				if t.Double {
+					s.Test(doubleTest(fn, t))
+				} else if t.ViaCopy {
+					s.Test(copiedTest(fn, t))
+				} else {
+					if t.Double {
+				s.Test(doubleTest(fn, t))
+			} else if t.ViaCopy {
+				s.Test(copiedTest(fn, t))
+			} else {
 				s.TestFunc(fn, append([]z.TestOption{opt}, pathOpts(t)...)...)
+			}
+				}
 			}
 		}
 		for i := 0; i < n.NPosts; i++ {
@@ -634,7 +732,13 @@ func BuildZog(n *Node, r *Recorder) z.ZogSchema {
 		s := z.Struct(sc)
 		for _, t := range n.Tests {
 			fn, opt := mkTest(t, false)
-			s.TestFunc(fn, append([]z.TestOption{opt}, pathOpts(t)...)...)
+			if t.Double {
+				s.Test(doubleTest(fn, t))
+			} else if t.ViaCopy {
+				s.Test(copiedTest(fn, t))
+			} else {
+				s.TestFunc(fn, append([]z.TestOption{opt}, pathOpts(t)...)...)
+			}
 		}
 		for i := 0; i < n.NPosts; i++ {
 			s.PostTransform(mkPost(i))
